@@ -25,9 +25,12 @@ static int ref_skip_height(int h)
 #ifndef NBLK
 #define NBLK 24
 #endif
+#ifndef SYMK
+#define SYMK 0
+#endif
 extern "C" void h_ancestor()
 {
-    static CBlockIndex blk[NBLK];
+    CBlockIndex blk[NBLK];
     for (int i = 0; i < NBLK; i++) { blk[i].nHeight = i; blk[i].pprev = i ? &blk[i - 1] : nullptr; blk[i].BuildSkip(); }
     for (int i = 0; i < NBLK; i++) VASSERT(blk[i].pskip == (i ? &blk[ref_skip_height(i)] : nullptr), "BuildSkip: pskip is the ancestor at the skip height");
     // heights inside [0, k] are enumerated (a symbolic height makes every walk fork at every step); heights outside are symbolic
@@ -39,12 +42,20 @@ extern "C" void h_ancestor()
             VASSERT(got == &blk[h], "GetAncestor(h) is the block at height h on the path to genesis");
             walks++;
         }
-        if (hout < 0 || hout > k) {
-            const CBlockIndex* got = blk[k].GetAncestor(hout);
-            verif_observe(got ? 1 : 0);
-            VASSERT(got == nullptr, "GetAncestor: nullptr outside [0, height]");
-            if (k == NBLK - 1) { VWITNESS(hout > k, "height above the block"); VWITNESS(hout < 0, "negative height"); }
-        }
+        VASSERT(blk[k].GetAncestor(-1) == nullptr && blk[k].GetAncestor(k + 1) == nullptr && blk[k].GetAncestor(INT_MAX) == nullptr && blk[k].GetAncestor(INT_MIN) == nullptr,
+                "GetAncestor: nullptr just outside [0, height] and at the int extremes");
+    }
+    {   // any int height, on one block (the walk loop is explored symbolically here: every step forks, so one moderately deep block only)
+        const int k = NBLK - 1 < SYMK ? NBLK - 1 : SYMK;
+        const CBlockIndex* got = blk[k].GetAncestor(hout);
+        verif_observe(got ? (uint64_t)got->nHeight : 999);
+        VASSERT(got == ((hout < 0 || hout > k) ? nullptr : &blk[(hout < 0 || hout > k) ? 0 : hout]), "GetAncestor with any int height: the block at that height or nullptr outside [0, height]");
+        VWITNESS(got == nullptr && hout > k, "height above the block");
+        VWITNESS(got == nullptr && hout < 0, "negative height");
+#if SYMK > 2
+        VWITNESS(got != nullptr && k - hout > k / 2, "a long walk");
+#endif
+        VWITNESS(got == &blk[k], "own height");
     }
     VASSERT(walks == NBLK * (NBLK + 1) / 2, "all (block, height) pairs visited");
     VREACH("end");
@@ -74,7 +85,7 @@ static int naive_lca(int x, int y)
 extern "C" void h_tree()
 {
     static_assert(TR >= 1);
-    static CBlockIndex nd[NT];
+    CBlockIndex nd[NT];
     for (int i = 0; i < NT; i++) { nd[i].nHeight = t_height(i); nd[i].pprev = t_parent(i) >= 0 ? &nd[t_parent(i)] : nullptr; nd[i].BuildSkip(); }
     int crossings = 0;
     for (int ia = 0; ia < NT; ia++) for (int ib = 0; ib < NT; ib++) {
@@ -123,8 +134,8 @@ extern "C" void h_tree()
 #endif
 extern "C" void h_locator()
 {
-    static CBlockIndex blk[LN];
-    static uint256 hash[LN];
+    CBlockIndex blk[LN];
+    uint256 hash[LN];
     for (int i = 0; i < LN; i++) {
         hash[i].data()[0] = (unsigned char)(i & 0xff); hash[i].data()[1] = (unsigned char)(i >> 8); hash[i].data()[31] = 0xb1;
         blk[i].nHeight = i; blk[i].pprev = i ? &blk[i - 1] : nullptr; blk[i].phashBlock = &hash[i]; blk[i].BuildSkip();
